@@ -12,14 +12,27 @@ PROP = dict(
                "PUBLISH packets on the connections.",
     level_note="Trusted: as C03.  Matching (a trailing '#' matching the parent level) is topic_matches; the trie side is C01, "
                "where the inline parent-level defect was repaired.  Inline subscriptions are keyed by the identifier "
-               "(Subscribers.InlineSubscriptions): one identifier with two matching filters is called once.",
-    engines=[dict(hx="route", args=["c40"], model="route_c40")],
+               "(Subscribers.InlineSubscriptions): one identifier with two matching filters is called once.  Concurrency: "
+               "C40_inline_atomic_all_schedules is about the model in which InlineSubscribe's walk + add is one atomic step "
+               "under the index root lock (that the code has this shape is re-read from the AST by C31's topics_rootlock); "
+               "the split variant is refuted by a concrete schedule (C40_split_refuted); the real code is exercised on forced "
+               "schedules through one verif-tag schedule point (commit 0f394d1), other interleavings only as the Go "
+               "scheduler produces them.",
+    engines=[dict(hx="route", args=["c40"], model="route_c40"), dict(hx="topics_inlinesched")],
     theorems=["C40_reaches_all_clients", "C40_reaches_all_inline", "C40_qos", "C40_retained_then_live", "C40_unsub_one",
-              "C40_unsub_others"],
-    model_files="coq/Session/Deliver.v",
+              "C40_unsub_others", "C40_inline_atomic_all_schedules"],
+    model_files="coq/Session/Deliver.v; coq/Topics/InlineConc.v (concurrency dimension: atomic model, split variant, checker)",
     rule="histories as for C03 with 35% inline operations (inline publish QoS 0-2 retained or not, inline subscribe / "
          "unsubscribe of identifiers 1-3 on {a/b, a/+, a/#, #, +/b, a/c, +, b}) mixed with regular clients.  non-trivial = "
-         "inline operation, or publish step with an inline handler call",
+         "inline operation, or publish step with an inline handler call.  "
+         "ADDED concurrency dimension (engine topics_inlinesched, 900 / 15000 forced schedules on a real Server with "
+         "InlineClient): an inline Subscribe is parked at the schedule point inline.add (between the walk that creates the "
+         "filter's path and the insertion of the subscription) while 1-2 other goroutines run client Unsubscribe of the same "
+         "filter, a retained clear on the branch, inline Unsubscribe of the same / another identifier, or a Publish; it is "
+         "then released; after quiescence: publishes on the matching topics (trailing '#' on the parent level included), "
+         "inline Unsubscribe, publishes again.  Verdict by Topics.InlineConc.inline_engine: some serial order consistent "
+         "with every goroutine's order must explain every return value and every set of handlers called (each exactly "
+         "once) under the plain-set specification",
     exhaustive=False,
     modelled="server.go Publish/Subscribe/Unsubscribe/InjectPacket, topics.go InlineSubscribe/InlineUnsubscribe (as a set of "
              "(identifier, filter))",
